@@ -73,17 +73,57 @@ Definition v_aobs (p : ares * ast) : val :=
   L [v_ares r; I (pos st); vbool (a_eof st); vbool (closed st); I (awaits (nt st));
      I (late (nt st)); I (over (nt st))].
 
-(* ops: 0 WSGI history; 1 ASGI history *)
+Definition d_wres (v : val) : wres :=
+  match v with
+  | L [I 0; b] => RBytes (dstr b)
+  | L [I 1; l] => RLines (dlist dstr l)
+  | L [I 2] => RStop
+  | L [I 3; b] => RDiscard (dstr b)
+  | L [I 4; b] => RBool (dbool b)
+  | _ => RBool false      (* an exception or a foreign value: fails the shape clause *)
+  end.
+
+Definition d_wobs (v : val) : wobs :=
+  {| o_op := d_wop (nth_val 0 v); o_res := d_wres (nth_val 1 v); o_eof := dbool (nth_val 2 v);
+     o_pos := dZ (nth_val 3 v); o_reach := dZ (nth_val 4 v); o_unb := dZ (nth_val 5 v) |}.
+
+Definition d_ares (v : val) : ares :=
+  match v with
+  | L [I 0; b] => ABytes (dstr b)
+  | L [I 1] => AStop
+  | L [I 2; I 1] => AErr ENotAllowed
+  | L [I 2; I _] => AErr EValueError
+  | L [I 3] => ANone
+  | L [I 4; b] => ABool (dbool b)
+  | L [I 5; I z] => AInt z
+  | _ => AInt (-1)      (* an exception or a foreign value: fails the shape clause *)
+  end.
+
+Definition d_aobs (v : val) : aobs :=
+  {| ao_op := d_aop (nth_val 0 v); ao_res := d_ares (nth_val 1 v); ao_tell := dZ (nth_val 2 v);
+     ao_eof := dbool (nth_val 3 v); ao_closed := dbool (nth_val 4 v);
+     ao_awaits := dZ (nth_val 5 v); ao_late := dZ (nth_val 6 v); ao_over := dZ (nth_val 7 v) |}.
+
+(* ops: 0 WSGI history (model + the oracle on the model's own observations);
+        1 ASGI history; 2 WSGI oracle on observations of the implementation; 3 ASGI oracle *)
 Definition run (v : val) : val :=
   match v with
   | L [I 0; fx; cl; data; caps; ops] =>
-    let s := {| s_data := dstr data; s_caps := dlist dnat caps; s_pos := 0; s_reach := 0;
-                s_unb := 0 |} in
-    vlist v_wobs (wrun (dbool fx) (dlist d_wop ops) (w_init (dZ cl) s))
+    let wops := dlist d_wop ops in
+    let tr := wrun (dbool fx) wops (w_init (dZ cl) (src0 (dstr data) (dlist dnat caps))) in
+    L [vlist v_wobs tr; vlist vN (w_oracle (dZ cl) (dstr data) (w_observes wops tr))]
   | L [I 1; fx; first; cl; events; ops] =>
+    let aops := dlist d_aop ops in
     let st := a_init (dbool fx) (d_first first) (d_zopt cl) (dlist d_event events) in
-    L [L [I (pos st); vbool (a_eof st)];
-       vlist v_aobs (arun (dbool fx) (dlist d_aop ops) st)]
+    let tr := arun (dbool fx) aops st in
+    L [L [I (pos st); vbool (a_eof st)]; vlist v_aobs tr;
+       vlist vN (a_oracle (d_first first) (d_zopt cl) (dlist d_event events) (pos st)
+                          (a_observes aops tr))]
+  | L [I 2; cl; data; obs] =>
+    vlist vN (w_oracle (dZ cl) (dstr data) (dlist d_wobs obs))
+  | L [I 3; first; cl; events; tell0; obs] =>
+    vlist vN (a_oracle (d_first first) (d_zopt cl) (dlist d_event events) (dZ tell0)
+                       (dlist d_aobs obs))
   | _ => L [I (-1)]
   end.
 
